@@ -35,8 +35,12 @@ func chance(t *rapid.T, label string, percent int) bool {
 
 // ------------------------------------------------------------------ sheets
 
-func genPrimer(t *rapid.T, label string, used map[string]bool) string {
-	n := gen.Len(t, label+"_len", 8, 32, 8, 12, 20)
+// genPrimer: the shortest primers grow with the largest mismatch budget of the
+// sheet (8 + 3 per allowed mismatch), as real designs do; otherwise nearly every
+// read carries accidental sites and nothing is determined.
+func genPrimer(t *rapid.T, label string, used map[string]bool, budgetCap int) string {
+	lo := 8 + 3*budgetCap
+	n := gen.Len(t, label+"_len", lo, 36, 18, 24)
 	p := gen.SeqMix(t, label, n, gen.ACGT, "rymkwsbdhvn", pick(t, label+"_iupac", 0, 0, 0, 10, 5))
 	// primers are made pairwise different by construction
 	for used[p] {
@@ -84,11 +88,27 @@ func genSheet(t *rapid.T) Sheet {
 	sh := Sheet{E: -1}
 	sh.CSV = chance(t, "csv", 60)
 	nm := pick(t, "nmarkers", 1, 1, 1, 2, 2, 3)
+	// the mismatch budgets are planned first: 0 none declared (default 2, or -e), 1 global line, 2 per-primer lines
+	mismForm := 0
+	if sh.CSV {
+		mismForm = pick(t, "mism_form", 0, 0, 1, 1, 2)
+	}
+	budgetCap := pick(t, "budget_cap", 0, 1, 2, 2, 3)
+	if mismForm == 0 {
+		sh.E = pick(t, "e", -1, -1, -1, 0, 1, 2, 3)
+		budgetCap = sh.E
+		if sh.E < 0 {
+			budgetCap = 2
+		}
+	}
+	if mismForm == 2 {
+		budgetCap = max(budgetCap, 2) // primers without a line keep the default
+	}
 	used := map[string]bool{}
 	upper := pick(t, "primer_case", 0, 0, 1, 2)
 	for i := 0; i < nm; i++ {
-		f := genPrimer(t, "fwd", used)
-		r := genPrimer(t, "rev", used)
+		f := genPrimer(t, "fwd", used, budgetCap)
+		r := genPrimer(t, "rev", used, budgetCap)
 		switch upper {
 		case 0:
 			f, r = strings.ToUpper(f), strings.ToUpper(r)
@@ -109,7 +129,7 @@ func genSheet(t *rapid.T) Sheet {
 		return sh.Markers[mi].Rev, mi, false
 	}
 	var params []Param
-	hasMism, hasIndels := false, false
+	hasIndels := false
 	minTagLen := 1 // tag_indels must stay below the tag length (domain decision)
 	if sh.CSV {
 		// spacer
@@ -133,15 +153,13 @@ func genSheet(t *rapid.T) Sheet {
 			params = append(params, Param{"matching", []string{m}})
 		}
 		// primer mismatches
-		switch pick(t, "mism_form", 0, 0, 1, 1, 2) {
+		switch mismForm {
 		case 1:
-			hasMism = true
-			params = append(params, Param{"primer_mismatches", []string{strconv.Itoa(rapid.IntRange(0, 3).Draw(t, "mism"))}})
+			params = append(params, Param{"primer_mismatches", []string{strconv.Itoa(budgetCap)}})
 		case 2:
-			hasMism = true
 			for k := rapid.IntRange(1, 2).Draw(t, "nmismfor"); k > 0; k-- {
 				p, _, _ := primerOf("mismfor")
-				params = append(params, Param{"primer_mismatches", []string{p, strconv.Itoa(rapid.IntRange(0, 3).Draw(t, "mismfor"))}})
+				params = append(params, Param{"primer_mismatches", []string{p, strconv.Itoa(uniform(t, "mismfor", budgetCap+1))}})
 			}
 		}
 		// primer indels
@@ -194,9 +212,6 @@ func genSheet(t *rapid.T) Sheet {
 		sh.Params = rapid.Permutation(params).Draw(t, "param_order")
 		// a later global line overrides an earlier per-primer one: keep the planned delimiters in step
 		// (the tag alphabets below only need a superset of the effective delimiters)
-	}
-	if !hasMism {
-		sh.E = pick(t, "e", -1, -1, -1, 0, 1, 2, 3)
 	}
 	if !hasIndels && chance(t, "with_indels", 10) {
 		sh.WithIndels = true
@@ -315,7 +330,7 @@ func plantPrimer(t *rapid.T, label string, sd sideM, k int) string {
 }
 
 func drawErrs(t *rapid.T, label string, sd sideM, overBudget *bool) int {
-	switch pick(t, label+"_errs", 0, 0, 0, 1, 1, 2, 3) {
+	switch pick(t, label+"_errs", 0, 0, 0, 0, 0, 1, 1, 1, 1, 2, 2, 2, 2, 3) {
 	case 0:
 		return 0
 	case 1:
@@ -483,15 +498,28 @@ func genRead(t *rapid.T, sh Sheet, ms []markerM) (Read, []string) {
 		}
 	}
 	build()
-	if kind == "amplicon" || kind == "chimera" {
-		// accidental extra priming sites make the expected answer undetermined:
-		// re-draw a bounded number of times, then keep the read for the safety clause
-		for try := 0; try < 2; try++ {
-			if c, _, _ := classify(ms, Read{Seq: seq}); c != "other" {
-				break
+	intended := func() bool { // built to carry well-formed sites only
+		for _, c := range cl {
+			if c == "primer:over_budget" || c == "primer:with_indel" || c == "partial_site" {
+				return false
 			}
-			evid.Class("redrawn_after_accidental_site", 1)
-			build()
+		}
+		return kind == "amplicon" || kind == "chimera"
+	}
+	// accidental extra priming sites make the expected answer undetermined:
+	// re-draw a bounded number of times, then keep the read for the safety clause
+	for try := 0; try < 2 && intended(); try++ {
+		if c, _, _ := classify(ms, Read{Seq: seq}); c != "other" {
+			break
+		}
+		evid.Class("redrawn_after_accidental_site", 1)
+		build()
+	}
+	if intended() {
+		if c, _, _ := classify(ms, Read{Seq: seq}); c == "other" {
+			cl = append(cl, "accidental_site_kept")
+		} else {
+			cl = append(cl, "built_well_formed")
 		}
 	}
 	if n, indel := maxPrimerLen(ms); indel && len(seq) <= n {
